@@ -138,6 +138,14 @@ func pointerize(t, base reflect.Type, v reflect.Value) reflect.Value {
 	}
 
 	for t != v.Type() {
+		if v.Kind() == reflect.Ptr && t.Kind() == reflect.Ptr && v.Type().ConvertibleTo(t) {
+			// t is a named pointer type (type P *T): taking addresses never
+			// gets there
+			return v.Convert(t)
+		}
+		if pointerDepth(v.Type()) >= pointerDepth(t) {
+			return v
+		}
 		if !v.CanAddr() {
 			tmp := reflect.New(v.Type())
 			tmp.Elem().Set(v)
@@ -147,6 +155,14 @@ func pointerize(t, base reflect.Type, v reflect.Value) reflect.Value {
 		}
 	}
 	return v
+}
+
+func pointerDepth(t reflect.Type) int {
+	n := 0
+	for ; t.Kind() == reflect.Ptr; t = t.Elem() {
+		n++
+	}
+	return n
 }
 
 func isInt(k reflect.Kind) bool {
